@@ -101,6 +101,11 @@ def ins {α} [DecidableEq α] (s : List α) (a : α) : List α :=
 /-- `IndexSet::extend`. -/
 def ext {α} [DecidableEq α] (s t : List α) : List α := t.foldl ins s
 
+/-- `enumerate()` starting at `k` -/
+def indexFrom {α} (k : Nat) : List α → List (Nat × α)
+  | [] => []
+  | x :: xs => (k, x) :: indexFrom (k + 1) xs
+
 /-! ## variables / free variables / predicates / symbols / function constants -/
 
 def ITerm.vars : ITerm → List Var
